@@ -186,8 +186,7 @@ def h_complete(ctx, skeleton, n=2, args=None, only=None):
     owners = {s: owner_of(objs, spec, s) for s in slots}
     n_pairs = 0
     for w, v, oname, attr in calc_values({k: o for k, o in objs.items() if k in in_system}):
-        if isinstance(v, EmptyExplainableObject):
-            continue
+        # empty values are kept: a value can be empty *because* of an input (e.g. a zero duration): control dependence
         anc = {id(a) for a in v.all_ancestors_with_id}
         cells = cells_of(v)
         if ctx.symbolic:
